@@ -1,7 +1,7 @@
 (** C18: theorems about the model C18_Model.v.  [Theorem]/[Example] = property statements (listed in
     Props/Properties_C18.v), [Fact] = helpers. *)
 From Coq Require Import List Arith Bool PeanoNat Lia.
-Require Import C18_Model C18_Basics C18_Spec C18_Refine C18_Refine2 C18_Refine3 C18_Values.
+Require Import C18_Model C18_Basics C18_Spec C18_Refine C18_Refine2 C18_Refine3 C18_Values C18_Alloc.
 Import ListNotations.
 
 (** the stage an operation invalidates, if it is a "variable change" *)
@@ -74,15 +74,15 @@ Proof. intros H. destruct (step_inval_shape cf s o g H) as [T SH]. cbv zeta.
     destruct (s_stage (get_sub i s)); auto. Qed.
 
 (* ================================================================= refinement of the specification *)
-(** For every state satisfying the (executable) invariants and every sequence of run-time operations none of which is
-    a deviation event ([legal_run]: every op is a run-time op -- advance, upd*, setDiscreteVariable of a variable
-    invalidating Time or later, mark / unmark, auto-update, getCacheEntry, invalidateAll(>= Time) -- marks happen at or
-    above the depends-on stage, and, unless the repair is in, auto-update swaps no variable that has explicit dependents):
-    thrown-or-not, all stages and the validity of every cache entry after every operation are exactly those of the
-    specification, i.e. an entry reads valid iff stage >= computedBy, or stage >= dependsOn and it was marked after the
-    last change of its depends-on stage and of every transitive prerequisite.
-    Partial: allocation, operations backing the state up below Instance, and copies are not covered by this theorem
-    (they are covered by the correspondence run and by the invariant check of every reached state). *)
+(** For every state satisfying the (executable) invariants and every sequence of covered operations none of which is a
+    deviation event ([legal_run]: every op is an allocation or a run-time op -- advance, upd*, setDiscreteVariable of a
+    variable invalidating Time or later, mark / unmark, auto-update, getCacheEntry, invalidateAll(>= Time) -- marks happen
+    at or above the depends-on stage, and, unless the repair is in, auto-update swaps no variable that has explicit
+    dependents): thrown-or-not, all stages and the validity of every cache entry after every operation are exactly those
+    of the specification, i.e. an entry reads valid iff stage >= computedBy, or stage >= dependsOn and it was marked after
+    the last change of its depends-on stage and of every transitive prerequisite.
+    Partial: operations backing the state up below Instance (allocation stacks are popped) and copies are not covered by
+    this theorem (they are covered by the correspondence run and by the invariant check of every reached state). *)
 Theorem valid_iff_spec_partial cf s l : wf_check s = true -> dyn_check s = true -> legal_run cf s l = true ->
   trace cf s l = gtrace (abs s) l /\ obs (run cf s l) = gobs (grun (abs s) l) /\
   forall k, isUpToDate (run cf s l) k = gvalid (grun (abs s) l) k.
@@ -91,10 +91,17 @@ Proof. intros W D L. destruct (run_refines cf l s (wf_check_sound s W) (dyn_chec
   - rewrite obs_abs, A; reflexivity.
   - intros k. rewrite <- A. symmetry. apply gvalid_abs. Qed.
 
+(** the same for complete histories: from a freshly constructed State with any number of subsystems, through allocation
+    and realization, for every covered operation sequence without deviation event *)
+Theorem valid_iff_spec_from_empty_partial cf n l : legal_run cf (st0 n) l = true ->
+  trace cf (st0 n) l = gtrace (abs (st0 n)) l /\ forall k, isUpToDate (run cf (st0 n) l) k = gvalid (grun (abs (st0 n)) l) k.
+Proof. intros L. destruct (st0_inv n) as [W D]. destruct (run_refines cf l (st0 n) W D L) as (T & A & _ & _).
+  split; auto. intros k. rewrite <- A. symmetry. apply gvalid_abs. Qed.
+
 (** the single-step form, with the invariants as propositions: they are preserved, so the theorem iterates *)
-Theorem step_refines_spec cf s o : WF s -> Dyn s -> runtime s o = true -> legal cf s o = true ->
+Theorem step_refines_spec cf s o : WF s -> Dyn s -> covered s o = true -> legal cf s o = true ->
   abs (fst (step cf s o)) = fst (gstep (abs s) o) /\ snd (step cf s o) = snd (gstep (abs s) o) /\ WF (fst (step cf s o)) /\ Dyn (fst (step cf s o)).
-Proof. exact (step_refines cf s o). Qed.
+Proof. exact (step_refines_all cf s o). Qed.
 
 Definition cfg_now := mkCfg false false.
 Definition cfg_fixed := mkCfg true true.
@@ -113,6 +120,8 @@ Definition ex_run : list op :=
 Example valid_iff_spec_nonvacuous :
   let s := run cfg_now (st0 2) ex_setup in
   wf_check s = true /\ dyn_check s = true /\ legal_run cfg_now s ex_run = true /\ legal_run cfg_fixed s ex_run = true /\
+  legal_run cfg_now (st0 2) (ex_setup ++ ex_run) = true /\ length (ex_setup ++ ex_run) = 43 /\
+  map fst (trace cfg_now (st0 2) ex_setup) = repeat false 19 /\
   isUpToDate (run cfg_now s [AdvSub 0 4; AdvSub 1 4; AdvSys 4; AdvSub 0 5; AdvSub 1 5; AdvSys 5; Mark (0,1)]) (0,1) = true /\
   isUpToDate (run cfg_now s [AdvSub 0 4; AdvSub 1 4; AdvSys 4; AdvSub 0 5; AdvSub 1 5; AdvSys 5; Mark (0,1); Upd WQ; AdvSub 0 5; AdvSub 1 5; AdvSys 5]) (0,1) = false.
 Proof. vm_compute. repeat split. Qed.
